@@ -290,7 +290,11 @@ theorem mkSlice_negative_hasNeg (start stop step a b : Option Int) (s : Nat)
   by_cases hc : (noneOrNonneg start && noneOrNonneg stop) = true
   · by_cases hst : noneOrNonneg step = true
     · simp only [hc, hst, Bool.and_true, if_true] at h
-      split at h <;> cases h
+      by_cases h0 : step = some 0
+      · simp only [h0, if_true] at h
+        cases h
+      · simp only [h0, if_false] at h
+        cases h
     · have hs : ∃ t, step = some t ∧ t < 0 := by
         cases step with
         | none => simp [noneOrNonneg] at hst
@@ -302,10 +306,12 @@ theorem mkSlice_negative_hasNeg (start stop step a b : Option Int) (s : Nat)
       cases h
   · have hc' : ¬ ((noneOrNonneg start && noneOrNonneg stop && noneOrNonneg step) = true) := by
       intro h'; apply hc; simp only [Bool.and_eq_true] at h' ⊢; exact h'.1
-    simp only [hc', if_false] at h
-    split at h
-    · cases h
-    · cases h
+    rw [if_neg hc'] at h
+    by_cases hst : step.getD 1 ≤ 0
+    · simp only [hst, if_true] at h
+      cases h
+    · simp only [hst, if_false] at h
+      cases h
       exact ⟨rfl, rfl, (hasNeg_iff start stop).2 hc⟩
 
 theorem pySlice_step (xs : List α) (start stop : Option Int) (s : Nat) :
